@@ -579,6 +579,31 @@ def xml_mutants(name, data):
                 r, els, _ = fresh()
                 els[k].text = val
                 yield ("%s:el%d:%s#text:%s" % (name, k, els[k].tag, op), serialize(r))
+    # a text block that holds what is valid in another block: the text of every other block of the model and declarations that only make
+    # sense globally (a process, a dynamic template, an instantiation, priorities, update hooks), alone and in front of the block's own text
+    _, els0, _ = fresh()
+    texts = []
+    for el in els0:
+        if el.text and el.text.strip() and el.tag in ("declaration", "system", "parameter", "label", "formula", "instantiation") and el.text not in texts:
+            texts.append(el.text)
+    texts = texts[:12] + FOREIGN_DECLS
+    for k in range(n_el):
+        if els0[k].tag not in ("declaration", "system", "parameter", "label", "formula", "instantiation"):
+            continue
+        own = els0[k].text or ""
+        for ti, t in enumerate(texts):
+            if t == own:
+                continue
+            for op, val in (("foreign", t), ("foreign+own", t + "\n" + own)):
+                if op == "foreign+own" and els0[k].tag != "declaration":
+                    continue
+                r, els, _ = fresh()
+                els[k].text = val
+                yield ("%s:el%d:%s#text:%s%d" % (name, k, els[k].tag, op, ti), serialize(r))
+
+
+FOREIGN_DECLS = ["process Zq() { state a; init a; }", "dynamic Zd(const int i);", "Zi = P();", "chan priority default;", "before_update { 1 }",
+                 "void zf() { exit(); }", "system P;", "int zg(int a, int b) { return a; } int zv = zg(1);"]
 
 
 XML_CFGS = [("xmlbuf", 1, "doc"), ("xmlfile", 1, "doc"), ("xmlbuf", 0, "doc"), ("xmlbuf", 1, "pretty"), ("xmlfile", 0, "pretty"),
